@@ -24,6 +24,10 @@ CLAIMED = {
    text="Seeded search over two real nodes on one bucket: phases of concurrent admin principal edits (explicit channels and roles, delete, recreate), role create/delete, and writes/updates/deletes/conflicting revisions of documents whose sync function calls access() and role() for arbitrary users and roles (including principals that do not exist yet), interleaved at every storage operation of the invalidate / recompute / save protocol, with forced CAS mismatches and feed redelivery, optional node restart. After every phase (quiescent point) the oracle recomputes, from the current winning bodies of the live documents and the admin grants stored on the principals, the literal union the property states, and compares it in both directions with what each node's authenticator returns on the user's next load: role channels, user inherited channels, user roles (existing roles only).",
    note="The admin part of the reference is read back from the stored principals (explicit channels/roles); the sync function is a fixed forwarding function so that its grants can be recomputed independently from document bodies.",
    technique="deterministic simulation of two nodes with storage-level interleaving; reference recomputation oracle at quiescent points", design="4/C03"),
+ "C16": dict(level="exploration",
+   text="Seeded search over a real revision cache (LRU / orchestrator / sharded by configuration; capacities 1-4 items, optional byte limit, 1-2 shards) whose backing store is the real collection of a real node, so every load goes through the storage seam (park and injected-error points inside the loader); 2-4 tasks issue get (by revision id, by current version, old revision), get-active, put, upsert, remove, peek and metadata-only channel changes followed by the feed's Remove on shared keys; the instrumenter inserts a scheduler yield before every atomic operation of the cache files so the load / remove / evict overlaps around the memory-state compare-and-swaps are explored. Oracle: every served revision has the stored body, revision id, history and deletion flag, and a channel set not older than the last change whose invalidation had returned before the read was invoked; at every scheduler step the LRU list and lookup map agree and hold at most the configured capacity; at quiescence no failed or unfinished load is cached, every cached item is accounted, the reported item and byte totals equal a recount, and both return to zero after every key is removed.",
+   note="The channel-change clause is checked at component level (the wrapper models channels as part of the document read); whole-database delivery of a metadata-only change through the feed is not separately driven here.",
+   technique="deterministic simulation with AST-inserted yields before atomics; storage-seam faults inside the loader; recount oracle", design="4/C16"),
 }
 
 NA = {
